@@ -44,6 +44,10 @@ type Recipe struct {
 	HF4Funded   int            `json:"hf4_funded"`        // how many HF4-listed addresses get a genesis balance
 	Balance     string         `json:"balance,omitempty"` // genesis balance of every account (default 1e27 wei)
 	Blocks      []BlockRecipe  `json:"blocks"`            // creation order; block id = index+1 (0 = genesis)
+	// Base != 0 puts the genesis block Base seconds after the start of the bubble's clock instead of
+	// far below it, so that blocks lie in the node's future ("future-block" histories). The oracle
+	// node (which would have to live at a later time than the nodes under test) then imports nothing.
+	Base int64 `json:"base,omitempty"`
 }
 
 type BlockRecipe struct {
@@ -260,7 +264,11 @@ func Build(r *Recipe) (u *Universe, err error) {
 	if gd == 0 {
 		gd = 100_000_000
 	}
-	u.Genesis = &core.Genesis{Config: u.Cfg, Timestamp: GenesisTime, GasLimit: 8_000_000, Difficulty: bigU(gd), Alloc: alloc}
+	gtime := uint64(GenesisTime)
+	if r.Base != 0 {
+		gtime = uint64(946684800 + r.Base)
+	}
+	u.Genesis = &core.Genesis{Config: u.Cfg, Timestamp: gtime, GasLimit: 8_000_000, Difficulty: bigU(gd), Alloc: alloc}
 	u.ODB = aquadb.NewMemDatabase()
 	gblock := u.Genesis.MustCommit(u.ODB)
 	u.Engine = aquahash.NewFaker()
@@ -299,6 +307,9 @@ func Build(r *Recipe) (u *Universe, err error) {
 			return nil, fmt.Errorf("recipe builds the same block twice (ids %d and %d)", old, id)
 		}
 		u.ByHash[b.Hash()] = id
+		if r.Base != 0 {
+			continue
+		}
 		if n, err := u.O.InsertChain(types.Blocks{b}); err != nil {
 			return nil, fmt.Errorf("%w %d (#%d) at %d: %v", ErrOracleRejected, id, b.NumberU64(), n, err)
 		}
